@@ -280,8 +280,9 @@ def run(ctx) -> dict:
             'in their name positions (they use the disambiguating parser.expected_next), and '
             'the path templates of the node classes are interpolated (f-strings).',
         'not_decided':
-            'That the path selects exactly the node (uniqueness, agreement of '
-            'get_child_position with predicate numbering, etree_iter_paths equality).',
+            'That the path selects exactly the node in general (uniqueness under namespaces with '
+            'unusual URIs, fragments, etree_iter_paths equality). Decided: the [n] of a step counts '
+            'preceding siblings of the same kind and name only.',
         'assumptions': ['kind tests are the tokens whose label contains "kind test" in the '
                         'registration model'],
     }
